@@ -43,7 +43,8 @@ class C01(Prop):
                  '0 begin dup 5 < while 1 + repeat', 'begin 1 true until', ': f ; f', ': f 1 ; : f 2 ; f', ': r local n n 0 > if n 1 - r then ; 3 r',
                  '3 0 do I 1 == if break then I loop', '2 0 do 2 0 do J I break loop loop', ': f 3 0 do I local x x loop ; f',
                  '1 var v v 2 ! v v', 'begin break repeat', '0 begin 1 + dup 3 > if break then repeat', '3 0 do 9 break 8 loop',
-                 'begin begin break repeat break repeat 4', '1 case 1 of 2 case 2 of 3 endof endcase endof endcase',
+                 'begin begin break repeat break repeat 4', '0 begin 1 + dup case 1 of 7 endof 2 of break endof 3 of break endof endcase repeat',
+                 '5 0 do I 1 > if I 2 == if break then I 3 == if break then then I loop', 'begin 1 if 0 if break then 1 if break then else break then repeat 8', '1 case 1 of 2 case 2 of 3 endof endcase endof endcase',
                  '1 0 do 7 loop 8', ': f begin 1 break repeat ; f f', ': f local x x 1 + local x x ; 5 f',
                  ': g local a local b a b + local a a b ; 1 2 g', ': h local x 3 0 do x I + local x loop x ; 10 h',
                  # bounds that `do` refuses: both operands are consumed, nothing else is touched
@@ -83,6 +84,37 @@ class C01(Prop):
             body += ' ' + ' '.join(names)
             args = ' '.join(str(rng.randint(-3, 9)) for _ in names)
             cs.append('c1 6000 %s' % hexsrc(': f %s ; %s f' % (body, args)))
+        # several `break`s pending above one conditional when it is closed: a loop body whose single outer conditional (if/else or
+        # case with several branches) encloses 0..4 break sites, each in its own already-closed inner conditional or bare in a branch
+        def brk_piece():
+            c = 'dup %d %s' % (rng.randint(0, 7), rng.choice(['==', '>', '<']))
+            return rng.choice(['%s if break then' % c, '%s if break else 1 drop then' % c, '%s if 2 drop else break then' % c,
+                               '%s if %s if break then then' % (c, c), 'break', '3 drop'])
+
+        def brk_seq():
+            return ' '.join(brk_piece() for _ in range(rng.randint(0, 4)))
+        for i in range(300 if not thorough else 6000):
+            form = rng.random()
+            c = 'dup %d %s' % (rng.randint(0, 7), rng.choice(['==', '>', '<', '<>']))
+            if form < 0.35:
+                outer = '%s if %s then' % (c, brk_seq())
+            elif form < 0.6:
+                outer = '%s if %s else %s then' % (c, brk_seq(), brk_seq())
+            elif form < 0.9:
+                outer = 'dup case ' + ' '.join('%d of %s endof' % (k_, brk_seq()) for k_ in rng.sample(range(8), rng.randint(1, 4))) + \
+                        rng.choice([' endcase', ' drop 9 endcase', ' %s endcase' % brk_seq()])
+            else:
+                outer = '%s if %s if %s then %s then' % (c, c, brk_seq(), brk_seq())
+            lp = rng.random()
+            if lp < 0.4:
+                src = '0 begin 1 + dup 6 > if break then %s repeat' % outer
+            elif lp < 0.7:
+                src = '8 0 do I %s drop loop' % outer
+            elif lp < 0.85:
+                src = ': f 0 begin 1 + dup 6 > if break then %s repeat ; f' % outer
+            else:
+                src = '0 begin 1 + %s dup 5 > until' % outer
+            cs.append('c1 6000 %s' % hexsrc(src))
         n = 2500 if not thorough else 60000
         for i in range(n):
             g = Gen(rng, meta=False, bad=0.03 if i % 5 else 0.12, io=(i % 3 == 0), reals=False, plain=(i % 4 != 0))
